@@ -2,7 +2,7 @@
    forms of the invariants / denotations of Pool/Model.v, evaluated on observations of the
    real pool (snapshots obtained by reflection, request results, globally sequenced events). *)
 From Coq Require Import String List ZArith Bool.
-From GV Require Import Rules.KcModel Rules.KcCheck Pool.Model.
+From GV Require Import Rules.KcModel Rules.KcCheck Pool.Model Engine.IR Engine.Hand Engine.Spec Pool.Compose.
 Import ListNotations.
 
 Definition flag (b : bool) (code : nat) : list nat := if b then [] else [code].
@@ -78,8 +78,12 @@ Record mg_snap := mkMS {
   ms_number  : nat;
   ms_sal     : list (option Z);
   ms_desc    : list (option string);
-  ms_execs   : list (list (string * Z))   (* per instance: (rule, version) entries returned by an execution forced onto it *)
+  ms_execs   : list (list (string * Z));  (* per instance: (rule, version) entries returned by an execution forced onto it (sort model wrapper) *)
+  ms_em_execs : list (list (string * Z))  (* per instance: the same through the *SpecifiedEM wrapper, i.e. under the pool's CURRENT model *)
 }.
+
+(* the probe rule named "pd" always fails (harness rule kind "fail"): the result then tells the execution models apart *)
+Definition probe_fails (n : string) : bool := String.eqb n "pd".
 Record mg_case := mkMC {
   mc_id    : nat;
   mc_max   : nat;
@@ -108,12 +112,11 @@ Definition check_mg_step (probe : list string) (s s' : mgmt) (o : mop) (ob : mg_
          Nat.eqb (ms_number ob) (q_number s') &&
          KcCheck.list_eqb (opt_eqb Z.eqb) (ms_sal ob) (map (q_salience s') probe) &&
          KcCheck.list_eqb (opt_eqb String.eqb) (ms_desc ob) (map (q_desc s') probe)) 26 ++
-   (* an execution forced onto every instance returns exactly the denoted rules (by version) — or nothing when cleared *)
-   flag (forallb (fun ex =>
-           if m_clear s' then match ex with [] => true | _ => false end
-           else (Nat.eqb (length ex) (length (ents (m_master s'))) &&
-                 forallb (fun nv => match alookup (fst nv) (ents (m_master s')) with
-                                    | Some r => Z.eqb (rbody r) (snd nv) | None => false end) ex)%bool) (ms_execs ob)) 27).
+   (* an execution forced onto every instance returns exactly what the sort model returns on the denoted set (the failing
+      probe rule has no entry) — or nothing when cleared *)
+   flag (forallb (fun ex => same_entries ex (expected_result_k probe_fails (mkShape EExecute 0 0 [] []) s')) (ms_execs ob)) 27 ++
+   (* ... and through the *SpecifiedEM wrappers what the DENOTED MODEL returns on the denoted set *)
+   flag (forallb (fun ex => same_entries ex (expected_em_result probe_fails s')) (ms_em_execs ob)) 29).
 
 Fixpoint check_mg_steps (i : nat) (probe : list string) (s : mgmt) (steps : list (mop * mg_snap)) : list (nat * nat) :=
   match steps with
